@@ -8,6 +8,10 @@ For each lint `L` (model `L.lint`, the transcription of the Rust visitor; specif
                the documented condition.  Where the code as it is violates this, the theorem carries
                the hypothesis that excludes the defect and `L_defect` is a concrete program on which
                the model (= the code, by the correspondence run) reports an unjustified diagnostic.
+               (After the /repo fixes 9a12c1a, 1da8247, 13926c7, ca6ead7, e3c77cd only duplicate_keys
+               still needs such a hypothesis; the former witnesses are now `…_fixed_…` theorems.)
+* `L_by_value` — where the code now judges literals by value: the pattern is reported in every context
+               however its literals are spelled.
 * `L_canon`  — the documented canonical pattern is reported in EVERY context: for every node `n`
                that requires a diagnostic, every statement `s` containing `n` and every one-hole
                context `ctx` (any block position at any nesting depth), `L.lint (ctx.plug s)` contains
@@ -25,27 +29,33 @@ example : Ex.deepCtx.depth = 3 := by decide
 
 /-! ### divide_by_zero -/
 
-theorem divide_by_zero_sound (b : Block) (g : Diag) (h : g ∈ DivideByZero.lint b)
-    (hplain : (nodesB b).all plainZeroDividend = true) : ∃ n ∈ nodesB b, Doc.divideByZero n g = true :=
-  sound_lift DivideByZero.hook_sound h hplain
+theorem divide_by_zero_sound (b : Block) (g : Diag) (h : g ∈ DivideByZero.lint b) :
+    ∃ n ∈ nodesB b, Doc.divideByZero n g = true :=
+  sound_lift (ok := fun _ => true) (fun n g hg _ => DivideByZero.hook_sound n g hg) h (by simp)
+
+/-- the lint's zero test is the by-value test (`ast_util::number_is_zero`, /repo 1da8247) -/
+theorem number_is_zero_by_value (text : String) : numberIsZero text = zeroText text := numberIsZero_eq text
 
 set_option exponentiation.threshold 1100 in
-example : (nodesB (Ex.prog Ex.divCanon)).all plainZeroDividend = true ∧ DivideByZero.lint (Ex.prog Ex.divCanon) ≠ [] := by decide
-
-set_option exponentiation.threshold 1100 in
-/-- `x = 0.0 / 0` is reported although `0/0` is documented as allowed: only the spelling `0` is recognised -/
-theorem divide_by_zero_defect :
-    ∃ g ∈ DivideByZero.lint (Ex.prog Ex.divDefect), ∀ n ∈ nodesB (Ex.prog Ex.divDefect), Doc.divideByZero n g = false := by
-  decide
+/-- formerly `divide_by_zero_defect`: `x = 0.0 / 0` is no longer reported (`0/0` is documented as allowed) -/
+theorem divide_by_zero_fixed_zero_dividend : DivideByZero.lint (Ex.prog Ex.divDefect) = [] := by decide
 
 theorem divide_by_zero_canon (n : Node) (x : Expect) (hx : x ∈ Canon.divideByZero n) (s : Stmt) (hn : n ∈ nodesS s)
     (ctx : BCtx) : ∃ g ∈ DivideByZero.lint (ctx.plug s), x.matches g = true :=
   canon_lift DivideByZero.hook_canon hx hn ctx
 
+/-- `n / <zero>` is reported in every context however the zero is spelled -/
+theorem divide_by_zero_by_value (n : Node) (x : Expect) (hx : x ∈ ByValue.divideByZero n) (s : Stmt) (hn : n ∈ nodesS s)
+    (ctx : BCtx) : ∃ g ∈ DivideByZero.lint (ctx.plug s), x.matches g = true :=
+  canon_lift DivideByZero.hook_byValue hx hn ctx
+
 set_option exponentiation.threshold 1100 in
 example : Canon.divideByZero (.expr (Ex.divBy0 "1")) ≠ [] ∧ Node.expr (Ex.divBy0 "1") ∈ nodesS Ex.divCanon := by
   refine ⟨by decide, ?_⟩
   simp [Ex.divCanon, Ex.assignTo, nodesS, nodesEL, nodesE, Ex.divBy0]
+
+set_option exponentiation.threshold 1100 in
+example : ByValue.divideByZero (.expr (.bin ⟨2, 4⟩ (.num ⟨2, "1"⟩) ⟨3, "/"⟩ (.num ⟨4, "0x00"⟩))) ≠ [] := by decide
 
 /-! ### compare_nan -/
 
@@ -56,27 +66,27 @@ theorem compare_nan_canon (n : Node) (x : Expect) (hx : x ∈ Canon.compareNan n
     (ctx : BCtx) : ∃ g ∈ CompareNan.lint (ctx.plug s), x.matches g = true :=
   canon_lift CompareNan.hook_canon hx hn ctx
 
+/-- `x == <zero>/<zero>` is reported in every context however the zeros are spelled -/
+theorem compare_nan_by_value (n : Node) (x : Expect) (hx : x ∈ ByValue.compareNan n) (s : Stmt) (hn : n ∈ nodesS s)
+    (ctx : BCtx) : ∃ g ∈ CompareNan.lint (ctx.plug s), x.matches g = true :=
+  canon_lift CompareNan.hook_byValue hx hn ctx
+
+set_option exponentiation.threshold 1100 in
 example : Canon.compareNan (.expr Ex.nanExpr) ≠ [] ∧ CompareNan.lint (Ex.deepCtx.plug Ex.nanCanon) ≠ [] := by decide
 
 /-! ### suspicious_reverse_loop -/
 
-theorem suspicious_reverse_loop_sound (b : Block) (g : Diag) (h : g ∈ SuspiciousReverseLoop.lint b)
-    (hplain : (nodesB b).all plainBound = true) : ∃ n ∈ nodesB b, Doc.suspiciousReverseLoop n g = true :=
-  sound_lift SuspiciousReverseLoop.hook_sound h hplain
+theorem suspicious_reverse_loop_sound (b : Block) (g : Diag) (h : g ∈ SuspiciousReverseLoop.lint b) :
+    ∃ n ∈ nodesB b, Doc.suspiciousReverseLoop n g = true :=
+  sound_lift (ok := fun _ => true) (fun n g hg _ => SuspiciousReverseLoop.hook_sound n g hg) h (by simp)
 
-example : (nodesB (Ex.prog (Ex.loop "1"))).all plainBound = true ∧ SuspiciousReverseLoop.lint (Ex.prog (Ex.loop "1")) ≠ [] := by decide
+example : SuspiciousReverseLoop.lint (Ex.prog (Ex.loop "1")) ≠ [] := by decide
 
-/-- `for i = #t, 0x10 do end` is reported: `str::parse::<f32>("0x10")` fails and `None <= Some(1.0)` -/
-theorem suspicious_reverse_loop_defect_hex :
-    ∃ g ∈ SuspiciousReverseLoop.lint (Ex.prog (Ex.loop "0x10")),
-      ∀ n ∈ nodesB (Ex.prog (Ex.loop "0x10")), Doc.suspiciousReverseLoop n g = false := by
-  decide
+/-- formerly `suspicious_reverse_loop_defect_hex`: `for i = #t, 0x10 do end` is no longer reported -/
+theorem suspicious_reverse_loop_fixed_hex : SuspiciousReverseLoop.lint (Ex.prog (Ex.loop "0x10")) = [] := by decide
 
-/-- `for i = #t, 1.00000001 do end` is reported: the bound is rounded to single precision first -/
-theorem suspicious_reverse_loop_defect_rounding :
-    ∃ g ∈ SuspiciousReverseLoop.lint (Ex.prog (Ex.loop "1.00000001")),
-      ∀ n ∈ nodesB (Ex.prog (Ex.loop "1.00000001")), Doc.suspiciousReverseLoop n g = false := by
-  decide
+/-- formerly `suspicious_reverse_loop_defect_rounding`: `for i = #t, 1.00000001 do end` is no longer reported -/
+theorem suspicious_reverse_loop_fixed_rounding : SuspiciousReverseLoop.lint (Ex.prog (Ex.loop "1.00000001")) = [] := by decide
 
 theorem suspicious_reverse_loop_canon (n : Node) (x : Expect) (hx : x ∈ Canon.suspiciousReverseLoop n) (s : Stmt)
     (hn : n ∈ nodesS s) (ctx : BCtx) : ∃ g ∈ SuspiciousReverseLoop.lint (ctx.plug s), x.matches g = true :=
@@ -85,6 +95,26 @@ theorem suspicious_reverse_loop_canon (n : Node) (x : Expect) (hx : x ∈ Canon.
 example : Canon.suspiciousReverseLoop (.stmt (Ex.loop "1")) ≠ [] ∧ Node.stmt (Ex.loop "1") ∈ nodesS (Ex.loop "1") := by
   refine ⟨by decide, ?_⟩
   simp [Ex.loop, nodesS]
+
+/-- a bound `≤ 1` spelled in any DECIMAL form (`1.0`, `1e0`, `10e-1`, `0.5`, …) is reported in every context -/
+theorem suspicious_reverse_loop_by_value_decimal (sp : Span) (v cm : Tok) (a : Expr) (t : Tok) (body : Block) (x : Expect)
+    (hx : x ∈ ByValue.suspiciousReverseLoop (.stmt (.numFor sp v cm a (.num t) .none body)))
+    (hdec : (decimalValue t.text.toList).isSome = true) (s : Stmt)
+    (hn : Node.stmt (.numFor sp v cm a (.num t) .none body) ∈ nodesS s) (ctx : BCtx) :
+    ∃ g ∈ SuspiciousReverseLoop.lint (ctx.plug s), x.matches g = true := by
+  obtain ⟨g, hg, hm⟩ := SuspiciousReverseLoop.hook_byValue_decimal _ x hx (by
+    intro sp' v' cm' a' t' b' heq
+    simp only [Node.stmt.injEq, Stmt.numFor.injEq, Expr.num.injEq] at heq
+    obtain ⟨_, _, _, _, ht, _⟩ := heq
+    rw [← ht]; exact hdec)
+  exact ⟨g, runLint_plug _ ctx s g ⟨_, hn, hg⟩, hm⟩
+
+example : ByValue.suspiciousReverseLoop (.stmt (Ex.loop "10e-1")) ≠ [] ∧ (decimalValue "10e-1".toList).isSome = true := by decide
+
+/-- remaining by-value miss: `for i = #t, 0x1 do end` (a hexadecimal spelling of a bound `≤ 1`) is not reported -/
+theorem suspicious_reverse_loop_miss_hex_one :
+    SuspiciousReverseLoop.lint (Ex.prog (Ex.loop "0x1")) = [] ∧ ByValue.suspiciousReverseLoop (.stmt (Ex.loop "0x1")) ≠ [] := by
+  decide
 
 /-! ### mixed_table -/
 
@@ -163,35 +193,27 @@ example : Canon.duplicateKeys (.table ⟨2, 12⟩ (match Ex.dupCanonTbl with | .
 
 /-! ### bad_string_escape -/
 
-/-- `"\3a0"` (the escape `\3` followed by `a0`) is reported "decimal escape is too high": the regular
-expression swallows hexadecimal digits and the check adds the hundreds to the third character -/
-theorem bad_string_escape_defect_hex_digits :
-    ∃ g ∈ BadStringEscape.lint false (Ex.prog (Ex.strAssign "\\3a0")),
-      ∀ n ∈ nodesB (Ex.prog (Ex.strAssign "\\3a0")), Doc.badStringEscape false n g = false := by
-  decide
+/-- formerly `bad_string_escape_defect_hex_digits`: `"\3a0"` (the escape `\3` followed by `a0`) is no longer
+reported (/repo e3c77cd) -/
+theorem bad_string_escape_fixed_hex_digits : BadStringEscape.lint false (Ex.prog (Ex.strAssign "\\3a0")) = [] := by decide
 
-/-- (Roblox) `"\x414"` is reported malformed although `\x41` has its two digits -/
-theorem bad_string_escape_defect_x_digits :
-    ∃ g ∈ BadStringEscape.lint true (Ex.prog (Ex.strAssign "\\x414")),
-      ∀ n ∈ nodesB (Ex.prog (Ex.strAssign "\\x414")), Doc.badStringEscape true n g = false := by
-  decide
+/-- formerly `bad_string_escape_defect_x_digits`: (Roblox) `"\x414"` is no longer reported (/repo 13926c7) -/
+theorem bad_string_escape_fixed_x_digits : BadStringEscape.lint true (Ex.prog (Ex.strAssign "\\x414")) = [] := by decide
 
-/-- a backslash before CR LF (a line continuation in a CRLF file) is reported as a non-existent escape -/
-theorem bad_string_escape_defect_crlf :
-    ∃ g ∈ BadStringEscape.lint false (Ex.prog (Ex.strAssign "a\\\r\nb")),
-      ∀ n ∈ nodesB (Ex.prog (Ex.strAssign "a\\\r\nb")), Doc.badStringEscape false n g = false := by
-  decide
+/-- formerly `bad_string_escape_defect_crlf`: a backslash before CR LF is no longer reported (/repo ca6ead7) -/
+theorem bad_string_escape_fixed_crlf : BadStringEscape.lint false (Ex.prog (Ex.strAssign "a\\\r\nb")) = [] := by decide
 
-/-- `"\256"` is not reported (by-value miss: the tens digit is never read) -/
-theorem bad_string_escape_miss_256 :
-    BadStringEscape.lint false (Ex.prog (Ex.strAssign "\\256")) = [] ∧
-      ByValue.badStringEscape false (.expr (.str ⟨2, "\"\\256\""⟩ .double "\\256")) ≠ [] := by
+/-- formerly `bad_string_escape_miss_256`: `"\256"` is now reported, and the report is justified (/repo e3c77cd) -/
+theorem bad_string_escape_fixed_256 :
+    ∃ g ∈ BadStringEscape.lint false (Ex.prog (Ex.strAssign "\\256")),
+      g.sub = some (1, 5) ∧ g.msg = BadStringEscape.msgDecimal ∧
+      Doc.badStringEscape false (.expr (.str ⟨2, "\"\\256\""⟩ .double "\\256")) g = true := by
   decide
 
 /- Full statements (not proved: they need "the regular expression's matches start exactly at the
    backslashes where a Lua lexer starts an escape", an induction over both scanners):
      theorem bad_string_escape_sound (roblox) (b) (g) (h : g ∈ BadStringEscape.lint roblox b)
-       (hplain : no decimal / `\x` escape of b is followed by a hexadecimal digit, no CR after a backslash) :
+       :
        ∃ n ∈ nodesB b, Doc.badStringEscape roblox n g = true
      theorem bad_string_escape_canon (roblox) (n) (x) (hx : x ∈ Canon.badStringEscape roblox n) (s) (hn : n ∈ nodesS s) (ctx) :
        ∃ g ∈ BadStringEscape.lint roblox (ctx.plug s), x.matches g = true
